@@ -552,6 +552,10 @@ func (c *ColumnSchema) UnmarshalJSON(data []byte) error {
 		return fmt.Errorf("cannot parse column object %s", err)
 	}
 
+	if colJSON.Type == nil || colJSON.Type.Key == nil {
+		return fmt.Errorf("cannot parse column object: missing or invalid type")
+	}
+
 	c.ephemeral = colJSON.Ephemeral
 	c.mutable = colJSON.Mutable
 	c.TypeObj = colJSON.Type
